@@ -60,7 +60,7 @@ func w11Gen(r *rand.Rand, prop, tier string) *simrt.Case {
 			op := simrt.Op{Actor: cn, Kind: "valid", A: int64(r.IntN(200)), B: int64(r.IntN(30)), C: int64(r.Uint32())}
 			if r.IntN(3) == 0 {
 				op.Kind = "mutant"
-				op.S = []string{"truncate", "clientid-neg", "clientid-huge", "tag-count-huge", "tag-size-huge", "tag-size-2e63", "tag-varint-overlong", "len-zero", "len-short", "len-more-than-sent", "len-big", "garbage", "neg-len"}[r.IntN(13)]
+				op.S = []string{"truncate", "clientid-neg", "clientid-huge", "tag-count-huge", "tag-size-huge", "tag-size-2e63", "tag-varint-overlong", "len-zero", "len-short", "len-more-than-sent", "len-big", "garbage", "neg-len", "tag-size-maxint64"}[r.IntN(14)]
 				op.D = int64(r.IntN(64))
 			}
 			c.Program = append(c.Program, op)
@@ -190,7 +190,7 @@ func w11Frame(op simrt.Op) *sentFrame {
 		binary.BigEndian.PutUint16(p[8:10], uint16(0x10000-2-int(op.D)%200))
 	case "clientid-huge":
 		binary.BigEndian.PutUint16(p[8:10], 0x7fff)
-	case "tag-count-huge", "tag-size-huge", "tag-size-2e63", "tag-varint-overlong":
+	case "tag-count-huge", "tag-size-huge", "tag-size-2e63", "tag-varint-overlong", "tag-size-maxint64":
 		// rebuild with a hostile tagged-field section after the client id
 		idLen := int(int16(binary.BigEndian.Uint16(p[8:10])))
 		if idLen < 0 {
@@ -210,6 +210,9 @@ func w11Frame(op simrt.Op) *sentFrame {
 			tags = append(bytes.Repeat([]byte{0xff}, 10+int(op.D)%3), 0x02)
 		case "tag-size-huge":
 			tags = append(binary.AppendUvarint(binary.AppendUvarint(nil, 1), 7), binary.AppendUvarint(nil, 1<<31-1+uint64(op.D))...)
+		case "tag-size-maxint64":
+			// the largest sizes a signed 64-bit length can hold: position + size overflows
+			tags = append(binary.AppendUvarint(binary.AppendUvarint(nil, 1), 7), binary.AppendUvarint(nil, 1<<63-1-uint64(op.D)%24)...)
 		default:
 			tags = append(binary.AppendUvarint(binary.AppendUvarint(nil, 1), 7), binary.AppendUvarint(nil, 1<<63+uint64(op.D))...)
 		}
